@@ -82,16 +82,23 @@ inductive Task
   | addDelayTimer (deadline : Nat)   -- `runAfter` from a foreign thread; weak reference inside
 deriving DecidableEq, Repr
 
-/-- does the functor keep the connection alive? (taken from the source where the hand-off is written) -/
-def Task.strong : Task → Bool
-  | .connectDestroyed | .writeComplete | .highWater _ => true
-  | .forceCloseInLoop => forceCloseHoldsRef
-  | .shutdownInLoop => shutdownHoldsRef
-  | .drainShutdownInLoop => drainShutdownHoldsRef
-  | .sendInLoop _ => sendPieceHoldsRef
-  | .startReadInLoop => startReadHoldsRef
-  | .stopReadInLoop => stopReadHoldsRef
-  | .addDelayTimer _ => false
+/-- what the functor holds of the connection (taken from the source where the hand-off is
+written; `connectDestroyed` is bound by the owner with its `TcpConnectionPtr`, the delayed
+close is a weak callback inside a timer) -/
+def Task.hold : Task → Hold
+  | .connectDestroyed => .strong
+  | .writeComplete => wcHold
+  | .highWater _ => hwmHold
+  | .forceCloseInLoop => forceCloseHold
+  | .shutdownInLoop => shutdownHold
+  | .drainShutdownInLoop => drainShutdownHold
+  | .sendInLoop _ => sendPieceHold
+  | .startReadInLoop => startReadHold
+  | .stopReadInLoop => stopReadHold
+  | .addDelayTimer _ => .weak
+
+/-- does the functor keep the connection alive? -/
+def Task.strong (t : Task) : Bool := t.hold = .strong
 
 inductive Ev
   | up | msg (readable : Nat) (hash : UInt64) | wc | hwm (n : Nat) | down | closeCb
@@ -346,7 +353,9 @@ def runTask (c : Conn) (t : Task) : Conn :=
   if !c.alive && !t.strong then
     match t with
     | .addDelayTimer d => { c with timers := c.timers ++ [d] }
-    | _ => emit { c with dead := true } (.uaf "functor with a raw pointer ran after destruction")
+    | _ =>
+      if t.hold = .weak then c   -- the weak callback finds the object gone: nothing happens
+      else emit { c with dead := true } (.uaf "functor with a raw pointer ran after destruction")
   else
   match t with
   | .sendInLoop d => sendInLoop c d true
